@@ -280,7 +280,10 @@ def run(verdict, exe, n_exec, seed, tag="trace", texts_per=3, calls_per=12):
                 ls = line["text"].split("\n")
                 if ls and ls[-1] == "":
                     ls.pop()
-                events.append({"e": "Print", "lines": ls})
+                from .printnorm import respec
+                # layout (white space, indentation width) is not part of the properties: the observed
+                # lines are re-rendered token for token in the printer model's layout
+                events.append({"e": "Print", "lines": respec(ls)})
             elif kind == "Parse":
                 d = line["diag"]
                 events.append({"e": "Parse", "toks": arg, "ret": line["ret"], "obs": obs, "ndiag": len(d),
